@@ -103,11 +103,12 @@ def meta(tier):
                       RuleDBBase.get_specification_rules, RuleDBForest.get_specification_rules, SpecificationRuleExtractor.rules,
                       Spec.__init__, Spec._group_equiv_in_path, Spec._set_subrules, Spec.get_terms, Spec.count_objects_of_size,
                       Rule._ensure_level],
-        "bounds": {"quick": "all 64 DFA tables with 2 states x 3 rule databases x 11 option sets (plain, iterative, inferral, symmetry, factory, "
+        "bounds": {"quick": "all 64 DFA tables with 2 states x 3 rule databases x the option sets listed below (plain, iterative, inferral, symmetry, factory, "
                             "finite verification (+expand_verified), smallest, statistics k / kk / ku); one late clock reading at every reading "
                             "position of the run (plain pack, 3 databases); draw tapes of 3 draws in {0,1,2+}; do_level x3 + "
                             "get_specification; counts compared for n<=6 and every statistic value",
-                   "thorough": "plus 4 more option sets, late readings for 3 more packs, and all 2934 DFA tables with 3 states (mod renaming) "
+                   "thorough": "more option sets, late readings for 3 more packs, and all 2934 DFA tables with 3 states (mod renaming) "
                                "for 4 option sets x 3 databases"}[tier],
     })
+    m["bounds"] = str(m.get("bounds", "")) + " || end-to-end groups of this run: " + e2e.describe_groups(groups(tier))
     return m
